@@ -342,8 +342,9 @@ def gen_media(g, nseg=None, feature_p=0.35, max_formats=3, with_keys=True):
     # playlist-level tags may stand anywhere (RFC 8216 4.3.3): before which segment each one is written
     # (None = in the header / ENDLIST at the very end)
     a["late"] = {}
+    a["dseq_late"] = g.chance(0.3)
     if n > 0 and g.chance(0.3):
-        for t in ("endlist", "ptype", "iframes", "indep", "start", "version_tag"):
+        for t in ("endlist", "ptype", "iframes", "indep", "start", "version_tag", "target"):
             if g.chance(0.5):
                 a["late"][t] = g.r.randrange(0, n + 1)
     # the library's independent-segments rule (known finding D17) — keep most cases clear of it
@@ -479,7 +480,7 @@ def render_media(a, g=None):
             later.setdefault(late[tagname], []).append(line)
         else:
             hdr.append(line)
-    hdr.append("#EXT-X-TARGETDURATION:%d" % a["target"])
+    put("target", "#EXT-X-TARGETDURATION:%d" % a["target"])
     if a["mseq"] is not None:
         hdr.append("#EXT-X-MEDIA-SEQUENCE:%d" % a["mseq"])
     if a["ptype"] is not None:
@@ -502,8 +503,10 @@ def render_media(a, g=None):
     if g is not None and g.style.get("hdr_perm"):
         g.r.shuffle(hdr)
     dseq = ["#EXT-X-DISCONTINUITY-SEQUENCE:%d" % a["dseq"]] if a["dseq"] is not None else []
-    # DISCONTINUITY-SEQUENCE must stay before the first segment tag
-    if dseq:
+    # DISCONTINUITY-SEQUENCE must stay before the first media segment (its URI line) and before any EXT-X-DISCONTINUITY tag:
+    # it may stand among the tags of the first segment
+    dseq_in_first = bool(dseq) and bool(a["segs"]) and a.get("dseq_late") and g is not None
+    if dseq and not dseq_in_first:
         hdr.insert(g.r.randrange(len(hdr) + 1) if g is not None and g.style.get("hdr_perm") else len(hdr), dseq[0])
     body = []
     unk = {}
@@ -513,7 +516,11 @@ def render_media(a, g=None):
         body += later.get(i, [])
         for u in unk.get(i, []):
             body.append(u)
-        body += seg_tag_lines(s, g)
+        tl = seg_tag_lines(s, g)
+        if i == 0 and dseq_in_first:
+            stop = min([j for j, l in enumerate(tl) if l.startswith("#EXT-X-DISCONTINUITY") and not l.startswith("#EXT-X-DISCONTINUITY-SEQUENCE")] + [len(tl)])
+            tl.insert(g.r.randrange(stop + 1), dseq[0])
+        body += tl
         body.append(s["uri"])
     body += later.get(len(a["segs"]), [])
     for u in unk.get(len(a["segs"]), []):
@@ -533,7 +540,8 @@ def style_lines(lines, g, protect_pairs=True):
     for i, l in enumerate(lines):
         after_streaminf = protect_pairs and i > 0 and lines[i - 1].startswith("#EXT-X-STREAM-INF:")
         if g.style.get("blank") and not after_streaminf and i > 0 and g.chance(0.15):
-            out.append(g.pick(["", "   ", "# a comment", "#comment, with = and \"quotes\"", "\t", "\u00a0", "\u2003\u3000", "\x0b"]))
+            out.append(g.pick(["", "   ", "# a comment", "#comment, with = and \"quotes\"", "\t", "\u00a0", "\u2003\u3000", "\x0b",
+                               "# was: #EXTINF:2.9,", "## #EXT-X-KEY:METHOD=NONE", "#ext-x-endlist", "# #EXT-X-STREAM-INF:BANDWIDTH=1"]))
         elif g.style.get("blank") and after_streaminf and g.chance(0.15):
             # between EXT-X-STREAM-INF and its URI only blank lines are transparent (a comment would be the URI)
             for _ in range(g.pick([1, 1, 2])):
